@@ -220,7 +220,7 @@ def real_find(fs, ids, q, paths_of):
             import traceback
             traceback.print_exc()
         return "err", G.err_class(e)
-    conv = lambda x: ids[os.fspath(x)]
+    conv = lambda x: G.file_id(ids, x)
     if q["bundle"] is None:
         return "ok", [conv(x) for x in res]
     return "ok", [[conv(x) for x in b] for b in res]
